@@ -175,7 +175,7 @@ Proof.
 Qed.
 
 (* ---------------------------------------------------------------- per-connection operations *)
-Lemma eff_try_unchoke_new v c h h' : try_unchoke_new v c h = Ok h' -> eff 0 h h'.
+Lemma eff_try_unchoke_new v hold c h h' : try_unchoke_new v hold c h = Ok h' -> eff 0 h h'.
 Proof. unfold try_unchoke_new. destruct (_ && _); [|intros H; inversion H; apply eff_refl].
   destruct (slot v c false h) as [[h1 r]|] eqn:S; [|discriminate]. simpl. intros H.
   eapply eff_eq; [eapply eff_trans; [eapply eff_slot; eauto | eapply eff_recv_unchoke; eauto]|reflexivity]. Qed.
